@@ -54,6 +54,11 @@ FaultScenarios(store) ==
     Scn("revoke", CfgStore(store), <<AuthzCode, RedeemOK(1)>>, <<RevokeRT(1)>>, <<RevokeRT(1), RefreshOK(1)>>),
     Scn("authorize", CfgStore(store), <<>>, <<AuthzPkce>>, <<RedeemV(1, "none"), RedeemV(1, "right")>>),
     Scn("authorize_hybrid", CfgStore(store), <<>>, <<AuthzHyb>>, <<RedeemOK(1)>>),
+    Scn("ccreds", CfgStore(store), <<>>, <<CCreds("A", "ok", <<"a">>, <<>>)>>, <<>>),
+    Scn("password", CfgStore(store), <<>>, <<Password("A", "ok", "ok", <<"offline", "a">>, <<>>)>>, <<RefreshOK(1)>>),
+    Scn("push", CfgStore(store), <<>>, <<Push("A", "ok", "code", <<"offline", "a">>, <<>>, "sent", "none", 0)>>, <<UsePar("A", "own", 1, "none")>>),
+    Scn("usepar", CfgStore(store), <<Push("A", "ok", "code_token", Full, <<>>, "sent", "none", 0)>>, <<UsePar("A", "own", 1, "none")>>,
+        <<UsePar("A", "own", 1, "none"), RedeemOK(1)>>),
     Scn("devpoll", [CfgStore(store) EXCEPT !.rscopes = <<>>], DevPre, <<DevPoll("P", "ok", 1)>>, <<DevPoll("P", "ok", 1), DevPoll("P", "ok", 1)>>) }
 ScnFaultTx == FaultScenarios("tx")
 ScnFaultMem == FaultScenarios("mem")
@@ -67,7 +72,10 @@ ScnConc2 ==
     Scn("refresh||probe", BaseCfg, <<AuthzCode, RedeemOK(1)>>, <<RefreshOK(1), Probe("at", 1)>>, <<>>),
     Scn("replay||refresh", BaseCfg, <<AuthzCode, RedeemOK(1)>>, <<RedeemOK(1), RefreshOK(1)>>, <<RefreshOK(2)>>),
     Scn("authorize||authorize", BaseCfg, <<>>, <<AuthzHyb, AuthzPkce>>, <<RedeemOK(1), RedeemV(2, "right")>>),
-    Scn("devpoll||devpoll", [BaseCfg EXCEPT !.rscopes = <<>>], DevPre, <<DevPoll("P", "ok", 1), DevPoll("P", "ok", 1)>>, <<RefreshOK(1)>>) }
+    Scn("devpoll||devpoll", [BaseCfg EXCEPT !.rscopes = <<>>], DevPre, <<DevPoll("P", "ok", 1), DevPoll("P", "ok", 1)>>, <<RefreshOK(1)>>),
+    Scn("usepar||usepar", BaseCfg, <<Push("A", "ok", "code", <<"offline", "a">>, <<>>, "sent", "none", 0)>>,
+        <<UsePar("A", "own", 1, "none"), UsePar("A", "own", 1, "none")>>, <<RedeemOK(1)>>),
+    Scn("password||ccreds", BaseCfg, <<>>, <<Password("A", "ok", "ok", <<"offline", "a">>, <<>>), CCreds("B", "ok", <<"a">>, <<>>)>>, <<RefreshOK(1)>>) }
 ScnConc3 ==
   { Scn("refresh||revoke||probe", BaseCfg, <<AuthzCode, RedeemOK(1)>>, <<RefreshOK(1), RevokeRT(1), Probe("rt", 1)>>, <<>>),
     Scn("revoke||revoke||probe", BaseCfg, <<AuthzCode, RedeemOK(1)>>, <<RevokeRT(1), RevokeAT(1), Probe("at", 1)>>, <<RefreshOK(1)>>) }
